@@ -205,13 +205,24 @@ func panicOutcome(p interface{}) string {
 // deepHash folds every field (exported or not) reachable from v into a hash;
 // pointers are followed once (cycle safe) and never contribute their address.
 type dumper struct {
-	h    evHash
-	seen map[uintptr]int
-	n    int
+	h      evHash
+	seen   map[uintptr]int
+	n      int
+	skipID bool
 }
 
 func deepHash(v interface{}) (uint64, int) {
 	d := &dumper{seen: map[uintptr]int{}}
+	d.walk(reflect.ValueOf(v), 0)
+	return d.h.h, d.n
+}
+
+// structHash is deepHash without node identity numbers: two parses of one text
+// must be structurally identical, which says nothing about a per-node id a
+// parser might hand out from a counter. (Whether evaluation leaves a tree
+// unchanged is still decided by the full deepHash.)
+func structHash(v interface{}) (uint64, int) {
+	d := &dumper{seen: map[uintptr]int{}, skipID: true}
 	d.walk(reflect.ValueOf(v), 0)
 	return d.h.h, d.n
 }
@@ -300,6 +311,9 @@ func (d *dumper) walk(v reflect.Value, depth int) {
 	case reflect.Struct:
 		d.h.addString(v.Type().String())
 		for i := 0; i < v.NumField(); i++ {
+			if d.skipID && v.Type().Field(i).Name == "id" && v.Type().Field(i).Type.Kind() == reflect.Int {
+				continue
+			}
 			d.walk(v.Field(i), depth+1)
 		}
 	case reflect.Func:
